@@ -20,9 +20,13 @@ Representation decisions
   * The executor's `canonical_tuples : Vec<usize>` is the field `Ctx.canon`; it is *stored* state,
     replaced wholesale at every `update_program` by `compute_canonical_tuples(all tuples)`
     (`execute.rs:58`, `environment.rs:968`).  `Ctx.ofProgram` builds that state.
-  * The heap is the list of *materialised* byte strings (`BinaryData::to_vec()`), the constants
-    table is `List Const`.  A heap slot / constant index out of range, or a constant that is an
-    integer, makes the comparison `false` exactly like the `if let (Some…, Some…) … else false`.
+  * A heap slot holds a *rope* (`binary.rs::BinaryData`: Owned / Zeroed / Slice / Concat / Tiled);
+    `values_equal` reads it through `len()` (the O(1) field-based length, used as a fast path) and
+    `to_vec()` (flattening) — `Rope.len`, `Rope.toVec`. The comparison must not depend on the rope
+    shape: that is `binEqual_eq` under `Rope.LenOK` (the invariant the smart constructors
+    `concat` / `slice` / `tiled` establish: the stored length is the flattened length).
+    The constants table is `List Const`.  A heap slot / constant index out of range, or a constant
+    that is an integer, makes the comparison `false` exactly like the `if let (Some…, Some…) … else false`.
   * Stack: head = top (as in `Core/VM/Step.lean::handleEqual`).
 -/
 namespace QM.Equal
@@ -57,17 +61,60 @@ def canonGo (seen : List (Shape × Nat)) (id : Nat) : List TupleInfo → List Na
 /-- `compatibility.rs::compute_canonical_tuples`. -/
 def canonicalTuples (ts : List TupleInfo) : List Nat := canonGo [] 0 ts
 
+/-- `binary.rs::BinaryData` (the `Rc`s are sharing only). -/
+inductive Rope where
+  | owned (bytes : List UInt8)
+  | zeroed (n : Nat)
+  | slice (parent : Rope) (offset length : Nat)
+  | concat (left right : Rope) (total : Nat)
+  | tiled (unit : Rope) (count : Nat)
+  deriving Repr, Inhabited
+
+def usizeMax : Nat := 2 ^ 64 - 1
+
+/-- `BinaryData::len` — O(1), from the stored fields (`saturating_mul` for `Tiled`). -/
+def Rope.len : Rope → Nat
+  | .owned bs => bs.length
+  | .zeroed n => n
+  | .slice _ _ l => l
+  | .concat _ _ t => t
+  | .tiled u c => min (u.len * c) usizeMax
+
+/-- `BinaryData::to_vec` / `write_to_vec`. (`Slice` is `parent_vec[offset..offset+length]`, a Rust
+panic when out of range; `BinaryData::slice` checks the bounds — `Rope.LenOK`.) -/
+def Rope.toVec : Rope → List UInt8
+  | .owned bs => bs
+  | .zeroed n => List.replicate n 0
+  | .slice p off l => (p.toVec.drop off).take l
+  | .concat l r _ => l.toVec ++ r.toVec
+  | .tiled u c => (List.replicate c u.toVec).flatten
+
+/-- The invariant the constructors `BinaryData::{new, zeroed, concat, slice, tiled}` establish. -/
+def Rope.LenOK : Rope → Prop
+  | .owned _ => True
+  | .zeroed _ => True
+  | .slice p off l => p.LenOK ∧ off + l ≤ p.len
+  | .concat l r t => l.LenOK ∧ r.LenOK ∧ t = l.len + r.len
+  | .tiled u c => u.LenOK ∧ u.len * c ≤ usizeMax
+
+def Rope.lenOKB : Rope → Bool
+  | .owned _ => true
+  | .zeroed _ => true
+  | .slice p off l => p.lenOKB && decide (off + l ≤ p.len)
+  | .concat l r t => l.lenOKB && r.lenOKB && decide (t = l.len + r.len)
+  | .tiled u c => u.lenOKB && decide (u.len * c ≤ usizeMax)
+
 /-- What the executor holds when it compares: the canonical table, the constants, the heap
 (materialised), plus — for `erase` only — the tuple table the canonical table was computed from. -/
 structure Ctx where
   tuples : List TupleInfo
   canon : List Nat
   consts : List Const
-  heap : List (List UInt8)
+  heap : List Rope
   deriving Repr, Inhabited
 
 /-- The context a fully updated executor has for program tables `tuples`, `consts`. -/
-def Ctx.ofProgram (tuples : List TupleInfo) (consts : List Const) (heap : List (List UInt8)) : Ctx :=
+def Ctx.ofProgram (tuples : List TupleInfo) (consts : List Const) (heap : List Rope) : Ctx :=
   { tuples := tuples, canon := canonicalTuples tuples, consts := consts, heap := heap }
 
 /-- `Executor::canonical_tuple`: `.get(id).copied().unwrap_or(id)`. -/
@@ -80,7 +127,7 @@ def Ctx.constBytes (X : Ctx) (i : Nat) : Option (List UInt8) :=
   | _ => none
 
 /-- `self.heap.get(i)` then `.to_vec()`. -/
-def Ctx.heapBytes (X : Ctx) (i : Nat) : Option (List UInt8) := X.heap[i]?
+def Ctx.heapBytes (X : Ctx) (i : Nat) : Option (List UInt8) := (X.heap[i]?).map Rope.toVec
 
 /-- The `(Value::Binary(a), Value::Binary(b))` arm, its four sub-arms in source order. -/
 def binEqual (X : Ctx) : Bin → Bin → Bool
@@ -89,8 +136,8 @@ def binEqual (X : Ctx) : Bin → Bin → Bool
     | some a, some b => a == b
     | _, _ => false
   | .heap ia, .heap ib =>
-    match X.heapBytes ia, X.heapBytes ib with
-    | some a, some b => if a.length != b.length then false else a == b
+    match X.heap[ia]?, X.heap[ib]? with
+    | some a, some b => if a.len != b.len then false else a.toVec == b.toVec
     | _, _ => false
   | .const ic, .heap ih =>
     match X.constBytes ic, X.heapBytes ih with
